@@ -647,13 +647,21 @@ def verifystrict(ctx):
     crate = ctx.facts("A").lib
     E = Effects(crate)
     n = 0
+    from flow import result_exits
     for p, f in sorted(crate.fns.items()):
-        if not f.body or f.krate != "vibrato" or not strip_generics(p).endswith("::verify"):
+        is_verify = strip_generics(p).endswith("::verify")
+        is_matrix = strip_generics(p).endswith("matrix_connector::MatrixConnector::from_reader")
+        if not f.body or f.krate != "vibrato" or not (is_verify or is_matrix):
             continue
         fa = E.fa(p)
         S = Sym(E, fa)
-        # blocks that make the function return false
+        # blocks that make the function return false (verify) / construct the Err (matrix parser)
         false_blocks = set()
+        if is_matrix:
+            ok_b, err_b, _ = result_exits(fa)
+            for b, t in fa.calls():
+                if "invalid_format" in " ".join(callee_paths(t)) and not (fa.reachable(b) & ok_b):
+                    false_blocks.add(b)
         for b, i, s in fa.stmts():
             if "lhs" in s and s["lhs"]["l"] == 0 and not s["lhs"]["p"] and s["rv"]["k"] == "use":
                 k = op_const(s["rv"]["op"])
@@ -668,9 +676,11 @@ def verifystrict(ctx):
             if not (e[0] == "binop" and e[1] in ("Lt", "Le", "Gt", "Ge")):
                 continue
             (lt, lc), (rt, rc) = _lin(e[2]), _lin(e[3])
-            if "num_left(" in lt or "num_right(" in lt:
+            def is_count(txt):
+                return "num_left(" in txt or "num_right(" in txt or (is_matrix and "parse_header" in txt)
+            if is_count(lt) and not is_count(rt):
                 cnt_left = True
-            elif "num_left(" in rt or "num_right(" in rt:
+            elif is_count(rt) and not is_count(lt):
                 cnt_left = False
             else:
                 continue
@@ -684,6 +694,7 @@ def verifystrict(ctx):
                         return False
                     x = sc[0]
                 return False
+
             rej_true = straight_to_false(t_t)
             rej_false = straight_to_false(f_t) and not rej_true
             if not (rej_true or rej_false):
@@ -697,10 +708,10 @@ def verifystrict(ctx):
             n += 1
             ok = kk == 0
             ctx.ob("VERIFYSTRICT", "%s|cmp|%d" % (p, k_), ok, fa.loc(b),
-                   "%s rejects an id when %s - id <= 0" % (p.split("::")[-2] + "::verify",
+                   "%s rejects an id when %s - id <= 0" % ("::".join(p.split("::")[-2:]),
                                                           "num_left/right") if ok else
                    "%s rejects an id only when count - id <= %s (comparison %s %s %s): the first id "
                    "outside the connector is accepted and indexes one past the tables during "
-                   "tokenization" % (p.split("::")[-2] + "::verify", kk, show(e[2]), e[1], show(e[3])))
+                   "tokenization" % ("::".join(p.split("::")[-2:]), kk, show(e[2]), e[1], show(e[3])))
             k_ += 1
-    ctx.floor("VERIFYSTRICT", "id-range comparisons in verify()", n, 4)
+    ctx.floor("VERIFYSTRICT", "id-range comparisons in verify() and the matrix parser", n, 6)
